@@ -12,7 +12,7 @@
    `step` is an ARBITRARY function everywhere in part 1: nothing is assumed about
    its value on the all-zero padding batch (NaN / Inf are values like any other). *)
 From Coq Require Import ZArith QArith List Bool.
-From FV Require Import Common.ListX Common.PySem Common.NanQ gen.Gen_for_each_client.
+From FV Require Import Common.ListX Common.PySem Common.NanQ Common.C02Lib gen.Gen_for_each_client.
 Import ListNotations.
 Local Open Scope Z_scope.
 
@@ -37,7 +37,8 @@ End Sort.
    here: they are the definitions translated from the source on every run,
    gen/Gen_for_each_client.v: blockify_sort_reverse, blockify_blocks,
    blockify_num_padding, blockify_has_batches, blockify_batch_range,
-   blockify_batch_is_real, pmap_select_state, pmap_skip, pmap_truncate. *)
+   blockify_batch_is_real, pmap_select_state, pmap_skip, pmap_truncate, pmap_emit (the
+   whole output-splitting loop of the pmap backend's run). *)
 
 Fixpoint map3 {A B C D} (f : A -> B -> C -> D) (la : list A) (lb : list B) (lc : list C) : list D :=
   match la, lb, lc with
@@ -45,7 +46,6 @@ Fixpoint map3 {A B C D} (f : A -> B -> C -> D) (la : list A) (lb : list B) (lc :
   | _, _, _ => []
   end.
 
-Definition opt_list {A} (o : option A) : list A := match o with Some x => [x] | None => [] end.
 
 (* ------------------------------------------------------------------------ *)
 Section Generic.
@@ -167,19 +167,11 @@ Definition run_block (sh : Sh) (blk : block) : list Out * list (list R) :=
   let (p_state, p_step_results) := fold_left p_loop_body (blk_mb blk) (p_state, []) in
   (map (final sh) p_state, p_step_results).
 
-(* tree_map(lambda x: x[i], p_step_results) *)
-Definition lane_results (i : nat) (p_step_results : list (list R)) : list R :=
-  flat_map (fun rj => opt_list (nth_error rj i)) p_step_results.
-
+(* the body of `for block in _blockify(...)`: run the block, then split / filter /
+   truncate / yield -- pmap_emit is GENERATED from that code (gen/Gen_for_each_client.v) *)
 Definition emit_block (sh : Sh) (blk : block) : list result :=
-  let (p_out, p_res) := run_block sh blk in
-  flat_map (fun i =>
-    match nth_error (blk_mask blk) i, nth_error (blk_id blk) i, nth_error p_out i, nth_error (blk_nb blk) i with
-    | Some client_mask_i, Some id, Some out, Some nb =>
-        if pmap_skip client_mask_i then []                 (* if not client_mask[i]: continue *)
-        else [(id, out, pmap_truncate (lane_results i p_res) nb)]
-    | _, _, _, _ => []
-    end) (seq 0 (length (blk_id blk))).
+  let (p_client_output, p_step_results) := run_block sh blk in
+  pmap_emit (blk_id blk) (blk_mask blk) (blk_nb blk) p_client_output p_step_results.
 
 Definition pmap_run (block_size : Z) (sh : Sh) (clients : list client) : list result :=
   flat_map (emit_block sh) (blockify block_size clients).
@@ -370,6 +362,7 @@ Record dbatch := mk_db { bx : leaf; by_ : leaf }.
 
 Record leafprog := mk_lp {
   lp_int : bool;                  (* int32 leaf (uses sum(batch.y)) or float32 leaf (uses sum(batch.x)) *)
+  lp_shape : list Z;              (* array shape of the leaf (the model computes on the flattened leaf) *)
   lp_init : Z;  lp_ia : Q; lp_ib : Q;   (* 0: shared[k]   1: cin[k]   2: ia*shared[k] + ib*cin[k] *)
   lp_step : Z;  lp_a : Q; lp_b : Q; lp_d : Q; lp_e : Q; lp_inv : Z;
                                   (* 0: a*s + (b*g + d [+ e*(1/bsum) | + e*(bsum/bsum)])  1: batch.x  2: s *)
@@ -444,23 +437,61 @@ Definition d_debug (p : prog) (wsr : bool) (sh : tree) (cl : list dclient) : lis
 Definition d_pmap (p : prog) (wsr : bool) (D : Z) (sh : tree) (cl : list dclient) : list dresult :=
   pmap_run (d_init p) (d_step p wsr) (d_final p) zeros_tree zeros_batch zeros_tree D sh cl.
 
-(* ---- comparison (as id-keyed collections: yield order is not part of the property) *)
-Definition id_key (r : dresult) : Z := match fst (fst r) with Some i => i | None => -1 end.
-Definition sort_results (l : list dresult) : list dresult := sort_by id_key false l.
+(* ---- comparison: as MULTISETS of yielded triples (yield order is not part of the
+   property; duplicate client ids give one triple per input entry).  An observed leaf
+   carries its dtype (0 float32, 1 int32, 2 other) and array shape. *)
+Definition oleaf : Type := Z * list Z * leaf.
+Definition oresult : Type := option Z * list oleaf * list (list oleaf).
 
 Definition leaf_close (tol : Q) (a b : leaf) : bool := list_beq (NanQ.close tol) a b.
-Definition tree_close (tol : Q) (a b : tree) : bool := list_beq (leaf_close tol) a b.
 Definition oid_eqb (a b : option Z) : bool :=
   match a, b with Some x, Some y => x =? y | None, None => true | _, _ => false end.
-Definition result_close (tol : Q) (a b : dresult) : bool :=
-  oid_eqb (fst (fst a)) (fst (fst b)) && tree_close tol (snd (fst a)) (snd (fst b)) &&
-  list_beq (tree_close tol) (snd a) (snd b).
-(* model results (sorted here) against observed results (sorted by the harness) *)
+
+(* dtype / shape the program gives each output leaf and each step-result leaf *)
+Definition leaf_meta (lp : leafprog) : Z * list Z := (if lp_int lp then 1 else 0, lp_shape lp).
+Definition out_meta (p : prog) : list (Z * list Z) := map leaf_meta (pr_leaves p).
+Definition res_meta (p : prog) : list (Z * list Z) :=
+  [(0, []); match nth_error (pr_leaves p) (pr_rleaf p) with Some lp => leaf_meta lp | None => (2, []) end].
+
+Definition meta_eqb (a b : Z * list Z) : bool := (fst a =? fst b) && list_beq Z.eqb (snd a) (snd b).
+(* model tree with the predicted metas against an observed tree *)
+Definition otree_close (tol : Q) (metas : list (Z * list Z)) (t : tree) (o : list oleaf) : bool :=
+  list_beq (fun (mt : (Z * list Z) * leaf) (ol : oleaf) =>
+              meta_eqb (fst mt) (fst ol) && leaf_close tol (snd mt) (snd ol))
+           (combine metas t) o
+  && Nat.eqb (length metas) (length t).
+
+Fixpoint list_beq2 {A B} (eqb : A -> B -> bool) (l1 : list A) (l2 : list B) : bool :=
+  match l1, l2 with
+  | [], [] => true
+  | x :: l1', y :: l2' => eqb x y && list_beq2 eqb l1' l2'
+  | _, _ => false
+  end.
+
+Definition result_close (p : prog) (tol : Q) (a : dresult) (b : oresult) : bool :=
+  oid_eqb (fst (fst a)) (fst (fst b)) && otree_close tol (out_meta p) (snd (fst a)) (snd (fst b)) &&
+  list_beq2 (otree_close tol (res_meta p)) (snd a) (snd b).
+
+(* remove the first element of l that matches *)
+Fixpoint remove_first {A} (f : A -> bool) (l : list A) : option (list A) :=
+  match l with
+  | [] => None
+  | x :: l' => if f x then Some l' else option_map (cons x) (remove_first f l')
+  end.
+Fixpoint mset_match {A B} (eqb : A -> B -> bool) (model : list A) (obs : list B) : bool :=
+  match model with
+  | [] => match obs with [] => true | _ => false end
+  | x :: model' => match remove_first (eqb x) obs with
+                   | Some obs' => mset_match eqb model' obs'
+                   | None => false
+                   end
+  end.
+
 (* with_step_result=False: for_each_client drops the third component of every yield *)
 Definition drop_results (wsr : bool) (l : list dresult) : list dresult :=
   if wsr then l else map (fun r => (fst r, [])) l.
-Definition results_close (wsr : bool) (tol : Q) (model obs : list dresult) : bool :=
-  list_beq (result_close tol) (sort_results (drop_results wsr model)) obs.
+Definition results_close (p : prog) (wsr : bool) (tol : Q) (model : list dresult) (obs : list oresult) : bool :=
+  mset_match (result_close p tol) (drop_results wsr model) obs.
 
 (* ---- the ownership model instantiated for a DSL program: which output leaf is a
    pass-through of which input leaf; buffers numbered shared, then per client its
@@ -499,7 +530,7 @@ Inductive C02_case :=
 | CThreads (sched : list (nat * bop)).
 
 Inductive C02_obs :=
-| ORun (jit debug pmap : list dresult) (buffers_ok : bool)
+| ORun (jit debug pmap : list oresult) (buffers_ok : bool)
 | OThreads (reads : list (nat * Z)).
 
 (* reads are compared by backend KIND: DEFAULT_BACKEND (0) is a jit backend *)
@@ -508,9 +539,9 @@ Definition read_eqb (a b : nat * Z) : bool := Nat.eqb (fst a) (fst b) && (snd a 
 Definition C02_agree (c : C02_case) (o : C02_obs) : bool :=
   match c, o with
   | CRun p wsr tol D sh cl, ORun oj od op ok =>
-      results_close wsr tol (d_jit p wsr sh cl) oj &&
-      results_close wsr tol (d_debug p wsr sh cl) od &&
-      results_close wsr tol (d_pmap p wsr D sh cl) op &&
+      results_close p wsr tol (d_jit p wsr sh cl) oj &&
+      results_close p wsr tol (d_debug p wsr sh cl) od &&
+      results_close p wsr tol (d_pmap p wsr D sh cl) op &&
       Bool.eqb ok (d_buffers_ok p cl)     (* no caller buffer deleted or changed *)
   | CThreads sched, OThreads reads =>
       list_beq read_eqb (snd (run_sched (fun _ => ts0) sched)) reads
